@@ -140,7 +140,11 @@ theorem vCall_mild (f a : Val) : MildR (vCall f a) := by
 theorem evalP_mild (p : PExpr) : MildR (evalP p) := by
   induction p with
   | num m e => exact mildR_bind (numValue_mild m e) (fun q => mildR_ok _)
-  | name s => exact mildR_ok _
+  | name s =>
+    simp only [evalP]
+    split
+    · exact mildR_err mild_upe
+    · exact mildR_ok _
   | neg e ih => exact mildR_bind ih (fun v => vNeg_mild v)
   | pos e ih => exact mildR_bind ih (fun v => vPos_mild v)
   | mul a b iha ihb => exact mildR_bind iha (fun x => mildR_bind ihb (fun y => vMul_mild x y))
@@ -224,7 +228,11 @@ theorem lex_mild : ∀ (fuel depth : Nat) (cs : List Char), MildR (lex fuel dept
       · split
         · exact mildR_err mild_upe
         · apply mildR_ite
-          · exact mildR_err mild_upe
+          · split
+            · apply mildR_ite
+              · exact M
+              · exact mildR_err mild_upe
+            · exact mildR_err mild_upe
           · exact M
       · apply mildR_ite
         · exact M
